@@ -490,7 +490,10 @@ def _lis_item_lists():
     from props import c06
     seen = set()
     out = []
-    for items, _layout, _ops in c06.gen_I('quick'):
+    # the smallest LIS files: nothing but header / trailer records (a single physical record at the least)
+    small = [['file_head'], ['tape_head'], ['reel_head'], ['reel_head', 'tape_head'], ['file_head', 'file_tail'],
+             ['reel_head', 'tape_head', 'file_head', 'file_tail', 'tape_tail', 'reel_tail'], ['file_head', 'cons', 'file_tail']]
+    for items in small + [it for it, _layout, _ops in c06.gen_I('quick')]:
         key = repr(items)
         if key not in seen:
             seen.add(key)
